@@ -542,6 +542,23 @@ pub fn min_model(terms: &[Result<u8, String>]) -> Vec<u8> {
     })
 }
 
+/// `min_model` for an arbitrary list of terms (the cache of `min_model` assumes that the
+/// same list -- the whole text -- is asked for every time).
+pub fn min_model_fresh(terms: &[Result<u8, String>]) -> Vec<u8> {
+    ENGINE.with(|e| {
+        if let Some(eng) = e.borrow_mut().as_mut() {
+            eng.rep_cache = None;
+        }
+    });
+    let v = min_model(terms);
+    ENGINE.with(|e| {
+        if let Some(eng) = e.borrow_mut().as_mut() {
+            eng.rep_cache = None;
+        }
+    });
+    v
+}
+
 /// Char boundary test on a symbolic text (forced by the layout constraints).
 pub fn is_boundary(s: &SymStr, ix: usize) -> bool {
     let raw = s.raw();
